@@ -208,7 +208,11 @@ class Blockwise(ArrayExpr):
                 args = []
                 for idx, arr in zip(self.args[1::2], arrays):
                     args.extend([arr, idx])
-                return type(self)(*self.operands[: len(self._parameters)], *args)
+                return self._rebuild_with_args(args)
+
+    def _rebuild_with_args(self, args):
+        # ``args`` alternates (array, index) like ``self.args``
+        return type(self)(*self.operands[: len(self._parameters)], *args)
 
 
 class Elemwise(Blockwise):
@@ -232,6 +236,15 @@ class Elemwise(Blockwise):
     @property
     def elemwise_args(self):
         return self.operands[len(self._parameters) :]
+
+    def _rebuild_with_args(self, args):
+        # Elemwise takes the arrays only; the indices are derived in ``args``
+        params = list(self.operands[: len(self._parameters)])
+        arrays = list(args[::2])
+        if self.where is not True:
+            # ``args`` ends with the ``where`` array, which is a parameter
+            params[self._parameters.index("where")] = arrays.pop()
+        return type(self)(*params, *arrays)
 
     @property
     def out_ind(self):
